@@ -57,14 +57,14 @@ PROPS = {
     "C06": {"modules": [P + "C06", P + "C06b", P + "C06Models"], "streams": ["dist"]},
     "C07": {"modules": [P + "C07"], "streams": ["dist", "fit", "select"], "relevant": {"dist": None}},
     "C09": {"modules": [P + "C09"], "streams": ["fit", "semi", "knnpred"], "relevant": {"predict": [0], "knnq": None}},
-    "C15": {"modules": [P + "C15"], "streams": ["semi"], "relevant": {"fit": [0, 1, 2, 3, 5, 6], "lawfit": None}},
+    "C15": {"modules": [P + "C15"], "streams": ["semi"], "relevant": {"fit": [0, 1, 2, 3, 4, 5, 6], "lawfit": None}},
     "C16": {"modules": [P + "C16"], "streams": ["select"], "relevant": {"selmax": None, "selcut": None}},
     "C10": {"modules": [P + "C10"], "streams": ["precomp", "fit"], "relevant": {"fit": [0, 1, 2, 3, 5], "predict": [0]}},
-    "C11": {"modules": [], "streams": ["c11", "fit"], "relevant": {"fit": [0, 1, 2, 3, 5], "predict": [0]}},
-    "C17": {"modules": [], "streams": ["learn", "fit"], "relevant": {"swap": None, "best": None, "prune": None, "predict": [1]}},
-    "C18": {"modules": [], "streams": ["stream"]},
+    "C11": {"modules": [P + "C11Map", P + "C11Family", P + "C11Perm"], "streams": ["c11", "fit"], "relevant": {"fit": [0, 1, 2, 3, 5], "predict": [0]}},
+    "C17": {"modules": [P + "C17"], "streams": ["learn", "fit"], "relevant": {"swap": None, "best": None, "prune": None, "predict": [1]}},
+    "C18": {"modules": [P + "C18"], "streams": ["stream"]},
     "C19": {"modules": [P + "C19"], "streams": ["persist"]},
-    "C20": {"modules": [], "streams": ["measures"]},
+    "C20": {"modules": [P + "C20"], "streams": ["measures"]},
     "C12": {"modules": [P + "C12Arcs", P + "C12Pdf"], "streams": ["knn"]},
     "C13": {"modules": [P + "C13"], "streams": ["cluster"]},
     "C14": {"modules": [P + "C14", P + "C12Pdf"], "streams": ["knnpred"]},
